@@ -14,7 +14,8 @@ import (
 	rt "github.com/uber-go/tally/v4/verifrt"
 )
 
-var c13TagSets = []map[string]string{nil, {}, {"a": "b"}, {"a": "b=c"}, {"a=b": "c"}, {"a": "b", "c": "d"}, {"x=y": ""}, {"x": "y="}}
+var c13TagSets = []map[string]string{nil, {}, {"a": "b"}, {"a": "b=c"}, {"a=b": "c"}, {"a": "b", "c": "d"}, {"x=y": ""}, {"x": "y="},
+	{"t01": "v", "t02": "v", "t03": "v", "t04": "v", "t05": "v", "t06": "v", "t07": "v", "t08": "v", "t09": "v", "t10": "v", "t11": "v", "t12": "v"}}
 
 func wantKey(name string, mtype int, count int64, gauge float64, timer int64, tags map[string]string, extra ...string) string {
 	ts := make([]string, 0, len(tags)+len(extra))
@@ -94,7 +95,7 @@ func c13Alphabet(full bool) []string {
 		for _, k := range []string{"counter", "gauge", "timer", "vhist", "dhist"} {
 			for _, n := range []string{"n", "m"} {
 				for ti := range c13TagSets {
-					if (k == "timer" || k == "dhist" || n == "m") && ti > 3 {
+					if (k == "timer" || k == "dhist" || n == "m") && ti > 3 && ti != 8 {
 						continue
 					}
 					a = append(a, fmt.Sprintf("alloc %s %s tags%d", k, n, ti))
